@@ -367,7 +367,41 @@ def rule_params_forwarded_(ctx: Ctx, rep: Report) -> None:
     rule_params_forwarded(ctx, rep, "C18.params_forwarded", ('btclib.fee', 'btclib.amount', 'btclib.psbt.psbt_size'), 15)
 
 
+def rule_finalized_predicate(ctx: Ctx, rep: Report) -> None:
+    """C18.finalized_predicate: "this input is finalized" is one predicate wherever
+    it is asked -- a final script_sig *or* a final witness (a native segwit
+    input has only the latter). The size estimate, the signer's skip, the
+    finalizer and PsbtIn.serialize must agree, or a finalized p2wpkh / p2tr
+    input is re-estimated from fields `finalize` has just cleared."""
+    rule = "C18.finalized_predicate"
+    n = 0
+    for fi in sorted(ctx.prog.functions.values(), key=lambda f: f.qualname):
+        if not fi.module.name.startswith("btclib.psbt"):
+            continue
+        tests = [t.ast for t in ctx.cfg(fi).nodes if t.kind == "test" and t.ast is not None] if any(
+            isinstance(x, ast.Attribute) and x.attr == "final_script_sig" for x in own_nodes(fi.node)) else []
+        # group leaf tests by their statement: `a or b` is two leaves of one `if`
+        by_stmt: dict[int, list[str]] = {}
+        for t in ctx.cfg(fi).nodes if tests else []:
+            if t.kind == "test" and t.ast is not None and isinstance(t.ast, ast.Attribute) and t.ast.attr in ("final_script_sig", "final_script_witness"):
+                by_stmt.setdefault(id(t.stmt), []).append(t.ast.attr)
+        for x in own_nodes(fi.node):
+            if isinstance(x, ast.BoolOp) and isinstance(x.op, ast.Or) and not isinstance(parent(x), (ast.If, ast.While, ast.IfExp)):
+                attrs = [v.attr for v in x.values if isinstance(v, ast.Attribute)]
+                if "final_script_sig" in attrs or "final_script_witness" in attrs:
+                    by_stmt.setdefault(id(x), []).extend(attrs)
+        for k, attrs in by_stmt.items():
+            if set(attrs) == {"final_script_witness"}:
+                continue  # "does it have a witness to copy", not "is it finalized"
+            n += 1
+            ok = {"final_script_sig", "final_script_witness"} <= set(attrs)
+            rep.ob(rule, f"{fi.qualname}:{'|'.join(sorted(set(attrs)))}@{n}", ok, fi.where(), "asks both final fields" if ok else
+                   f"`finalized` is decided on {sorted(set(attrs))} alone: an input finalized with only the other field is not seen as finalized")
+    rep.floor(rule, 3)
+
+
 RULES = [
+    ("C18.finalized_predicate", rule_finalized_predicate),
     ("C18.params_forwarded", rule_params_forwarded_),
     ("C18.size_vs_serialize", rule_size_vs_serialize),
     ("C18.weight", rule_weight),
@@ -380,6 +414,8 @@ RULES = [
 ]
 
 CONTROLS = [
+    {"rule": "C18.finalized_predicate", "name": "the size estimate asks the final script_sig alone", "module": "btclib.psbt.psbt_size",
+     "edit": lambda ctx: M.sub_expr(ctx, "btclib.psbt.psbt_size.estimated_input_sizes", M.is_text("psbt_in.final_script_sig or psbt_in.final_script_witness"), "psbt_in.final_script_sig")},
     {"rule": "C18.vsize_ceil", "name": "the fee owed is priced on weight // 4", "module": "btclib.tx_builder",
      "edit": lambda ctx: M.sub_expr(ctx, "btclib.tx_builder.build_psbt", lambda n: isinstance(n, ast.Assign) and norm(n.targets[0]) == "owed",
                                     "owed = fee_from_vsize(psbt.weight_estimate(sizer) // 4, fee_rate)")},
